@@ -13,7 +13,7 @@ EXPLANATION = (
     "its atoms, not run); the manager leaves only on empty pending (R-MGR-EXIT); release-all/sentinel-count/close/join "
     "order of the drain (R-SHUTDOWN-SEQ); pid-branch handshake (R-EXIT-HANDSHAKE); no strong reference from the manager "
     "to the executor by escape analysis + heap reachability (R-NO-STRONG-REF); at-exit protocol (R-ATEXIT); plus "
-    "R-NULLED / R-MGR-SELF (graceful-shutdown requests after which submitted work never completes: known findings D3, D4). "
+    "R-NULLED / R-MGR-SELF (graceful-shutdown requests after which submitted work never completes: known finding D4; D3 was repaired in /repo). "
     "Not decided: crash inside the shutdown phase; whether join_thread really joins the feeder."
 )
 
